@@ -119,6 +119,12 @@ def _is_sign_adapted(e: ast.AST, signs: set[str], kinds: Kinds, depth=0) -> bool
             if norm(plain) == norm(negd):
                 return True
     if isinstance(e, (ast.ListComp, ast.GeneratorExp)):
+        # projection of a list of tuples built elsewhere: [v for _, v in pairs] with pairs = [(g, s * f) for ...]
+        if len(e.generators) == 1 and isinstance(e.generators[0].target, ast.Tuple) and isinstance(e.elt, ast.Name) and isinstance(e.generators[0].iter, ast.Name) and e.generators[0].iter.id in kinds.defs:
+            pos = [k for k, x in enumerate(e.generators[0].target.elts) if isinstance(x, ast.Name) and x.id == e.elt.id]
+            ds = [d for d in kinds.defs[e.generators[0].iter.id] if not isinstance(d, ast.AugAssign)]
+            if len(pos) == 1 and ds and all(isinstance(d, (ast.ListComp, ast.GeneratorExp)) and isinstance(d.elt, ast.Tuple) and len(d.elt.elts) == len(e.generators[0].target.elts) for d in ds):
+                return all(_is_sign_adapted(d.elt.elts[pos[0]], signs, kinds, depth + 1) for d in ds)
         return _is_sign_adapted(e.elt, signs, kinds, depth + 1)
     if isinstance(e, ast.Name) and e.id in kinds.defs:
         ds = [d for d in kinds.defs[e.id] if not isinstance(d, ast.AugAssign)]
@@ -193,7 +199,24 @@ def r13_1(ctx: Ctx):
                 signs = _sign_names(ctx, f)
                 n_sinks += 1
                 ok = _is_sign_adapted(c.args[1], signs, kinds)
-                obs.append(ctx.ob("R13.1", f, c, status=OK if ok else VIOLATION, detail="CMA-ES is told sign-adapted values" if ok else f"CMA-ES (a minimiser) is told `{norm(c.args[1])}` without sign adaptation: on a maximisation problem the deme descends", construct="cma.tell"))
+                # positive evidence: the values are the raw fitnesses (an expression over `.fitness` with no multiplication, no
+                # conditional and no call in it); anything else that is not recognised stays undecided
+                def some_def_raw(e, depth=0):
+                    """some value the expression can take is the fitness itself, unscaled"""
+                    if depth > 6:
+                        return False
+                    if isinstance(e, ast.Attribute):
+                        return e.attr in ("fitness", "fitnesses")
+                    if isinstance(e, ast.Name) and e.id in kinds.defs:
+                        return any(some_def_raw(d, depth + 1) for d in kinds.defs[e.id] if not isinstance(d, ast.AugAssign))
+                    if isinstance(e, (ast.ListComp, ast.GeneratorExp)):
+                        return some_def_raw(e.elt, depth + 1)
+                    if isinstance(e, ast.Call) and norm(e.func).split(".")[-1] in ("array", "asarray", "list") and e.args:
+                        return some_def_raw(e.args[0], depth + 1)
+                    return False
+
+                raw = some_def_raw(c.args[1])
+                obs.append(ctx.ob("R13.1", f, c, status=OK if ok else VIOLATION if raw else INCONCLUSIVE, detail="CMA-ES is told sign-adapted values" if ok else f"CMA-ES (a minimiser) is told `{norm(c.args[1])}` without sign adaptation: on a maximisation problem the deme descends", construct="cma.tell"))
             if cs.external == "scipy.optimize.minimize" and _fun_arg(c, f) is not None:
                 n_sinks += 1
                 ok, why = _objective_sign_adapted(ctx, f, _fun_arg(c, f))
